@@ -28,7 +28,7 @@ def apen(sequence, m=1, r=0):
     elif type(sequence) is list:
         U = np.array(sequence)
     elif type(sequence) is np.ndarray:
-        U = sequence
+        U = sequence.tolist()
     else:
         raise TypeError("unsupported sequence type: %s" % type(sequence))
 
